@@ -88,34 +88,6 @@ structure Problem where
   extraNodes : Nat := 0
   lines : List String := []
 
-/-- TIME-DOMAIN READING OF A CCVS CONTROLLED BY A CAPACITOR.  The front-end describes `H1 a b C1 h` by `Cpt.HY` with the
-    admittance of the controlling element AT THE POINT s (for a capacitor y = s·C, isc = C·v0): an s-domain description.
-    In the time domain the control current is `C·D v`; it is expressed with the existing components by the electrically
-    identical circuit "capacitor in series with an ideal ammeter that carries the control branch":
-        C1 n3 n4 c v0 ; H1 n1 n2 C1 h     ↦     C1 n3 k c v0 ; AM k n4 (branch of C1) ; H n1 n2 (controlled by that branch)
-    with a fresh node `k` whose voltage signal is that of `n4` (so the ammeter law holds by construction and KCL at `k`
-    says: control current = i_C = C·D v seen from v0).  `HY` controlled by R or Y (constant conductance) is left as is. -/
-def capControl (brs : List String) (nNodes : Nat) (tcs : List (String × TCpt Q)) (x : Ix → Signal Q) :
-    List (String × TCpt Q) × (Ix → Signal Q) × Nat :=
-  tcs.foldl (fun (acc : List (String × TCpt Q) × (Ix → Signal Q) × Nat) (nc : String × TCpt Q) =>
-    let (cur, xx, extra) := acc
-    match nc.2.1 with
-    | .HY n1 n2 m _ _ mc _ _ h =>
-      let cn := brs.getD mc ""
-      if cn.startsWith "C" then
-        match cur.find? (fun q => q.1 = cn) with
-        | some (_, (.Cap a b c v0, w)) =>
-          let k := nNodes + extra
-          let vb : Signal Q := voltT xx b
-          let cur' := cur.map (fun q =>
-            if q.1 = cn then (cn, ((Cpt.Cap a k c v0 : Cpt Q), w))
-            else if q.1 = nc.1 then (nc.1, ((Cpt.H n1 n2 m mc h : Cpt Q), nc.2.2)) else q)
-          (cur' ++ [(cn ++ "_ammeter", ((Cpt.AM k b mc : Cpt Q), (⟨[], []⟩ : Signal Q)))],
-           (fun ix => if ix = Ix.node k then vb else xx ix), extra + 1)
-        | _ => acc
-      else acc
-    | _ => acc) (tcs, x, 0)
-
 def parseReported (toks : List String) : Except String (List (String × String × Signal Q)) :=
   (splitBar toks).filter (· ≠ []) |>.filterMapM (fun a =>
     match a with
@@ -166,18 +138,6 @@ def termStr : Term Q → String
 
 def polyStr (f : ExpPoly Q) : String := " ".intercalate (f.map termStr)
 
-/-- `smooth` mode: initial conditions dropped, every signal's pre-history replaced by its own value at 0⁺ -/
-def smoothProblem (p : Problem) : Problem :=
-  let clr : TCpt Q → TCpt Q := fun c => match c.1 with
-    | .Cap a b cc _ => (.Cap a b cc none, c.2)
-    | .Ind a b m l _ coup => (.Ind a b m l none (coup.map (fun q => (q.1, q.2.1, none))), c.2)
-    | _ => c
-  { p with
-    tcs := p.tcs.map (fun (n, c) => (n, clr c)),
-    x := fun ix => let sg := p.x ix; ⟨[(val0plus sg.post, 0, 0)], sg.post⟩,
-    tcsT := p.tcsT.map (fun (n, c) => (n, clr c)),
-    xT := fun ix => let sg := p.xT ix; ⟨[(val0plus sg.post, 0, 0)], sg.post⟩ }
-
 /-- the first two nodes of a component -/
 def cptNodes : Cpt Q → Nat × Nat
   | .R a b _ => (a, b) | .Cap a b _ _ => (a, b) | .Ind a b _ _ _ _ => (a, b) | .V a b _ _ => (a, b)
@@ -218,13 +178,14 @@ def handle (toks : List String) : Option String :=
         | .ok p =>
           let tcs := p.tcs.map (·.2)
           if cmd = "td.laws" then
-            let p := if head = ["smooth"] then smoothProblem p else p
-            let tcs := p.tcsT.map (·.2)
-            if !(coupConsistent tcs) then "error inconsistent-coupling" else
-            match checkLawsT tcs p.xT (p.e.cls.length + p.extraNodes) with
-            | .ok => "ok"
-            | .kcl k r => s!"kcl {className p.e k} {polyStr r}"
-            | .law i m r => s!"law {(p.tcsT.getD i ("?", (.Open 0 0, ⟨[], []⟩))).1} {p.e.brs.getD m "?"} {polyStr r}"
+            -- the whole decision (rewrites included) is the model function `tdCheck`, sound by `C02.tdCheck_sound`
+            let sm := decide (head = ["smooth"])
+            let tp := tdProblem sm p.e.brs p.e.cls.length p.tcs p.x
+            match tdCheck sm p.e.brs p.e.cls.length p.tcs p.x with
+            | none => "error inconsistent-coupling-or-node-out-of-range"
+            | some .ok => "ok"
+            | some (.kcl k r) => s!"kcl {className p.e k} {polyStr r}"
+            | some (.law i m r) => s!"law {(tp.1.getD i ("?", (.Open 0 0, ⟨[], []⟩))).1} {p.e.brs.getD m "?"} {polyStr r}"
           else if cmd = "td.reported" then
             let bad := p.reported.findSome? (fun (kind, n, sg) =>
               match p.tcsT.find? (fun c => c.1 = n) with
